@@ -25,8 +25,10 @@ use hickory_net::runtime::TokioRuntimeProvider;
 use hickory_net::xfer::Protocol;
 use hickory_net::BufDnsStreamHandle;
 use hickory_proto::op::{Message, SerialMessage};
+use hickory_proto::rr::rdata::tsig::TsigAlgorithm;
 use hickory_proto::rr::rdata::{NS, SOA, TXT};
-use hickory_proto::rr::{LowerName, Name, RData, Record, RecordType};
+use hickory_proto::rr::{LowerName, Name, RData, Record, RecordType, TSigner};
+use hickory_server::store::sqlite::SqliteZoneHandler;
 use hickory_server::dnssec::NxProofKind;
 use hickory_server::server::RequestInfo;
 use hickory_server::store::in_memory::InMemoryZoneHandler;
@@ -255,24 +257,62 @@ fn hname(wire: &[u8]) -> Name {
     n
 }
 
-struct Shape {
-    what: &'static str,
-    zones: &'static [&'static str],
-    /// put a handler that skips every request in front of the first zone's handler
-    chained: bool,
+/// One zone of a catalog shape.
+#[derive(Clone, Copy)]
+struct Z {
+    /// origin as configured (may be upper/mixed case; the catalog key is its lower-case form)
+    origin: &'static str,
+    /// AXFR policy AllowAll instead of Deny
+    axfr: bool,
+    /// ZoneType::Secondary instead of Primary
+    secondary: bool,
+    /// handler chain: 0 = [zone], 1 = [skip, zone], 2 = [skip, skip, zone], 3 = [zone, skip]
+    chain: u8,
 }
 
-const SHAPES: [Shape; 10] = [
-    Shape { what: "{z.}", zones: &["z."], chained: false },
-    Shape { what: "{z., a.z.}", zones: &["z.", "a.z."], chained: false },
-    Shape { what: "{z., a.z., a.a.z.}", zones: &["z.", "a.z.", "a.a.z."], chained: false },
-    Shape { what: "{a.z., b.z.}", zones: &["a.z.", "b.z."], chained: false },
-    Shape { what: "{.}", zones: &["."], chained: false },
-    Shape { what: "{., z.}", zones: &[".", "z."], chained: false },
-    Shape { what: "{}", zones: &[], chained: false },
-    Shape { what: "{z. = [skip-all, in-memory]}", zones: &["z."], chained: true },
-    Shape { what: "{., a.z.}", zones: &[".", "a.z."], chained: false },
-    Shape { what: "{z., a.a.z.}", zones: &["z.", "a.a.z."], chained: false },
+const fn z(origin: &'static str) -> Z {
+    Z { origin, axfr: false, secondary: false, chain: 0 }
+}
+
+struct Shape {
+    what: &'static str,
+    zones: &'static [Z],
+    /// the catalog answers NSID requests with this payload
+    nsid: bool,
+}
+
+/// Shapes 0..N_BASE_SHAPES are crossed with the big request products; the others (one deviating
+/// configuration dimension each) are driven by family FS.
+const N_BASE_SHAPES: usize = 10;
+const SHAPES: [Shape; 15] = [
+    Shape { what: "{z.}", zones: &[z("z.")], nsid: false },
+    Shape { what: "{z., a.z.}", zones: &[z("z."), z("a.z.")], nsid: false },
+    Shape { what: "{z., a.z., a.a.z.}", zones: &[z("z."), z("a.z."), z("a.a.z.")], nsid: false },
+    Shape { what: "{a.z., b.z.}", zones: &[z("a.z."), z("b.z.")], nsid: false },
+    Shape { what: "{.}", zones: &[z(".")], nsid: false },
+    Shape { what: "{., z.}", zones: &[z("."), z("z.")], nsid: false },
+    Shape { what: "{}", zones: &[], nsid: false },
+    Shape { what: "{z. = [skip-all, in-memory]}", zones: &[Z { origin: "z.", axfr: false, secondary: false, chain: 1 }], nsid: false },
+    Shape { what: "{., a.z.}", zones: &[z("."), z("a.z.")], nsid: false },
+    Shape { what: "{z., a.a.z.}", zones: &[z("z."), z("a.a.z.")], nsid: false },
+    // ---- one deviating dimension each (family FS)
+    Shape {
+        what: "{z., a.z.} zone transfers allowed",
+        zones: &[Z { origin: "z.", axfr: true, secondary: false, chain: 0 }, Z { origin: "a.z.", axfr: true, secondary: false, chain: 0 }],
+        nsid: false,
+    },
+    Shape { what: "{Z., A.z., A.a.Z.} origins configured in upper/mixed case", zones: &[z("Z."), z("A.z."), z("A.a.Z.")], nsid: false },
+    Shape {
+        what: "{z., a.z.} secondary zones",
+        zones: &[Z { origin: "z.", axfr: false, secondary: true, chain: 0 }, Z { origin: "a.z.", axfr: false, secondary: true, chain: 0 }],
+        nsid: false,
+    },
+    Shape {
+        what: "{z. = [skip, skip, in-memory], a.z. = [in-memory, skip]}",
+        zones: &[Z { origin: "z.", axfr: false, secondary: false, chain: 2 }, Z { origin: "a.z.", axfr: false, secondary: false, chain: 3 }],
+        nsid: false,
+    },
+    Shape { what: "{., z.} with NSID configured", zones: &[z("."), z("z.")], nsid: true },
 ];
 
 struct Acl {
@@ -341,6 +381,8 @@ struct AclTable {
     all: Vec<Acl>,
     /// configurations `N_BASE_ACLS..quick_end` are the product with lists of <= 2 entries
     quick_end: usize,
+    /// the rows `fi_start..` are the list configurations of the interleaving family
+    fi_start: usize,
 }
 
 fn acl_table() -> &'static AclTable {
@@ -379,8 +421,65 @@ fn acl_table() -> &'static AclTable {
                 quick_end = all.len();
             }
         }
-        AclTable { all, quick_end }
+        let fi_start = all.len();
+        for (deny, allow) in FI_LISTS.iter() {
+            all.push(Acl {
+                what: format!("interleaving: deny {deny:?} allow {allow:?} (several sources)"),
+                deny: deny.iter().map(|s| s.to_string()).collect(),
+                allow: allow.iter().map(|s| s.to_string()).collect(),
+                src: V4.to_string(),
+            });
+        }
+        AclTable { all, quick_end, fi_start }
     })
+}
+
+/// Access lists of the interleaving family (requests from SEVERAL sources on one server object).
+const FI_LISTS: [(&[&str], &[&str]); 7] = [
+    (&[], &[]),
+    (&["192.0.2.0/24"], &[]),
+    (&["192.0.0.0/8"], &["192.0.2.1/32"]),
+    (&[], &["192.0.2.0/24"]),
+    (&["::1/128"], &[]),
+    (&["2001:db8::/32"], &["2001:db8::1/128"]),
+    (&[], &["192.0.2.1/32", "::1/128"]),
+];
+const FI_SOURCES: [&str; 7] = [
+    "192.0.2.1:5353",
+    "192.0.2.2:5353",
+    "[::ffff:192.0.2.1]:5353",
+    "[::1]:5353",
+    "[2001:db8::1]:5353",
+    "[2001:db8::2]:5353",
+    "198.51.100.7:5353",
+];
+
+/// The request alphabet of the interleaving family.
+fn fi_requests() -> Vec<(&'static str, Vec<u8>)> {
+    let n = |s: &str| name_wire(s);
+    let mut trunc = build_request(0x0107, 0x0100, &n("x.a.z."), 16, 1, 0);
+    trunc.truncate(trunc.len() - 3);
+    let two_q = {
+        let q = question(&n("x.a.z."), 16, 1);
+        let mut m = hdr(0x010c, 0x0100, [2, 0, 0, 0]);
+        m.extend(&q);
+        m.extend(&q);
+        m
+    };
+    vec![
+        ("TXT x.a.z.", build_request(0x0101, 0x0100, &n("x.a.z."), 16, 1, 0)),
+        ("A z. edns v0", build_request(0x0102, 0x0000, &n("z."), 1, 1, 1)),
+        ("TXT o.", build_request(0x0103, 0x0100, &n("o."), 16, 1, 0)),
+        ("TXT x.a.z. edns v1", build_request(0x0104, 0x0100, &n("x.a.z."), 16, 1, 2)),
+        ("opcode 9", build_request(0x0105, 0x4800, &n("z."), 1, 1, 0)),
+        ("UPDATE z.", build_request(0x0106, 0x2800, &n("z."), 6, 1, 0)),
+        ("truncated question", trunc),
+        ("a response", build_request(0x0108, 0x8180, &n("x.a.z."), 16, 1, 0)),
+        ("5 octets", vec![0x01, 0x09, 0x01, 0x00, 0x00]),
+        ("qname pointer c002", build_request(0x010a, 0x0100, &[0xc0, 0x02], 1, 1, 0)),
+        ("AXFR z.", build_request(0x010b, 0x0000, &n("z."), 252, 1, 0)),
+        ("two questions", two_q),
+    ]
 }
 
 fn acls() -> &'static [Acl] {
@@ -440,9 +539,15 @@ impl ZoneHandler for SkipAll {
     }
 }
 
-fn build_zone(origin: &str, owners: &[Name]) -> InMemoryZoneHandler<TokioRuntimeProvider> {
-    let o = Name::from_str(origin).unwrap();
-    let mut zone = InMemoryZoneHandler::<TokioRuntimeProvider>::empty(o.clone(), ZoneType::Primary, AxfrPolicy::Deny, None);
+fn build_zone(spec: &Z, owners: &[Name]) -> InMemoryZoneHandler<TokioRuntimeProvider> {
+    let o = Name::from_str(spec.origin).unwrap();
+    let marker = format!("zone={}", spec.origin.to_ascii_lowercase());
+    let mut zone = InMemoryZoneHandler::<TokioRuntimeProvider>::empty(
+        o.clone(),
+        if spec.secondary { ZoneType::Secondary } else { ZoneType::Primary },
+        if spec.axfr { AxfrPolicy::AllowAll } else { AxfrPolicy::Deny },
+        None,
+    );
     let ns = Name::from_str("ns.o.").unwrap();
     zone.upsert_mut(
         Record::from_rdata(o.clone(), 300, RData::SOA(SOA::new(ns.clone(), Name::from_str("h.o.").unwrap(), 1, 1, 1, 1, 300))),
@@ -451,10 +556,7 @@ fn build_zone(origin: &str, owners: &[Name]) -> InMemoryZoneHandler<TokioRuntime
     zone.upsert_mut(Record::from_rdata(o.clone(), 300, RData::NS(NS(ns))), 1);
     for owner in owners {
         if o.zone_of(owner) {
-            zone.upsert_mut(
-                Record::from_rdata(owner.clone(), 300, RData::TXT(TXT::new(vec![format!("zone={origin}")]))),
-                1,
-            );
+            zone.upsert_mut(Record::from_rdata(owner.clone(), 300, RData::TXT(TXT::new(vec![marker.clone()]))), 1);
         }
     }
     zone
@@ -492,23 +594,28 @@ fn labels_of(s: &str) -> fd::Labels {
     s.split('.').filter(|l| !l.is_empty()).map(|l| l.as_bytes().to_vec()).collect()
 }
 
-type ZoneCache = std::collections::HashMap<&'static str, Arc<InMemoryZoneHandler<TokioRuntimeProvider>>>;
+type ZoneCache = std::collections::HashMap<(&'static str, bool, bool), Arc<InMemoryZoneHandler<TokioRuntimeProvider>>>;
 
 /// The zones are never modified (the in-memory handler answers UPDATE with NOTIMP), so one zone
-/// object per origin is shared by all catalogs of a worker.
+/// object per zone spec is shared by all catalogs of a worker.
 fn build_srv(world: &World, zones: &mut ZoneCache, shape: usize, acl: usize) -> Srv {
     let sh = &SHAPES[shape];
     let ac = &acls()[acl];
     let mut catalog = Catalog::new();
-    for (i, z) in sh.zones.iter().enumerate() {
-        let zone = zones.entry(*z).or_insert_with(|| Arc::new(build_zone(z, &world.owners))).clone();
-        let lname = LowerName::new(&Name::from_str(z).unwrap());
-        let mut chain: Vec<Arc<dyn ZoneHandler>> = vec![];
-        if sh.chained && i == 0 {
-            chain.push(Arc::new(SkipAll { origin: lname.clone() }));
-        }
-        chain.push(zone);
+    for spec in sh.zones.iter() {
+        let zone = zones.entry((spec.origin, spec.axfr, spec.secondary)).or_insert_with(|| Arc::new(build_zone(spec, &world.owners))).clone();
+        let lname = LowerName::new(&Name::from_str(spec.origin).unwrap());
+        let skip = || -> Arc<dyn ZoneHandler> { Arc::new(SkipAll { origin: lname.clone() }) };
+        let chain: Vec<Arc<dyn ZoneHandler>> = match spec.chain {
+            0 => vec![zone],
+            1 => vec![skip(), zone],
+            2 => vec![skip(), skip(), zone],
+            _ => vec![zone, skip()],
+        };
         catalog.upsert(lname, chain);
+    }
+    if sh.nsid {
+        catalog.set_nsid(Some(hickory_proto::rr::rdata::opt::NSIDPayload::new(*b"c11-nsid").unwrap()));
     }
     let server = Server::with_access(
         catalog,
@@ -516,7 +623,7 @@ fn build_srv(world: &World, zones: &mut ZoneCache, shape: usize, acl: usize) -> 
         ac.allow.iter().map(|s| s.parse::<ipnet::IpNet>().unwrap()),
     );
     let cfg = fd::Config {
-        zones: sh.zones.iter().map(|z| labels_of(z)).collect(),
+        zones: sh.zones.iter().map(|z| labels_of(&z.origin.to_ascii_lowercase())).collect(),
         deny: ac.deny.iter().map(|s| fd::Net::parse(s)).collect(),
         allow: ac.allow.iter().map(|s| fd::Net::parse(s)).collect(),
     };
@@ -550,7 +657,12 @@ impl<'w> Worker<'w> {
 }
 
 fn exec(rt: &tokio::runtime::Runtime, srv: &Srv, bytes: &[u8], proto: Protocol) -> Result<Vec<Vec<u8>>, vcore::PanicInfo> {
-    let src = srv.src;
+    exec_from(rt, srv, srv.src, bytes, proto)
+}
+
+/// As `exec`, with the request coming from `src` (the server object itself has no source: the
+/// access lists are evaluated per request).
+fn exec_from(rt: &tokio::runtime::Runtime, srv: &Srv, src: SocketAddr, bytes: &[u8], proto: Protocol) -> Result<Vec<Vec<u8>>, vcore::PanicInfo> {
     catch(|| {
         rt.block_on(async {
             let (handle, mut rx) = BufDnsStreamHandle::new(src);
@@ -949,6 +1061,251 @@ fn case_json(family: &str, pl: Place, req: &[u8], out: Option<&[Vec<u8>]>) -> Va
     })
 }
 
+/// One item of an interleaved history: (source, request bytes, tcp).
+type Item = (SocketAddr, Vec<u8>, bool);
+
+fn history_json(shape: usize, acl: usize, hist: &[&Item], out: Option<&[Vec<u8>]>, alone: Option<&[Vec<u8>]>) -> Value {
+    json!({
+        "family": "FI",
+        "shape": shape, "shape_what": SHAPES[shape].what,
+        "acl": acl, "deny": acls()[acl].deny, "allow": acls()[acl].allow,
+        "history": hist.iter().map(|(src, req, tcp)| json!({"src": src.to_string(), "proto": if *tcp { "tcp" } else { "udp" }, "request": hex::enc(req)})).collect::<Vec<_>>(),
+        "last_responses": out.map(|o| o.iter().map(|r| hex::enc(r)).collect::<Vec<_>>()),
+        "responses_when_sent_alone": alone.map(|o| o.iter().map(|r| hex::enc(r)).collect::<Vec<_>>()),
+    })
+}
+
+/// The response(s) to `item` on a brand-new server object.
+fn alone(w: &mut Worker, shape: usize, acl: usize, item: &Item, l: &mut Local) -> Vec<Vec<u8>> {
+    let srv = build_srv(w.world, &mut w.zones, shape, acl);
+    match exec_from(&w.rt, &srv, item.0, &item.1, if item.2 { Protocol::Tcp } else { Protocol::Udp }) {
+        Ok(out) => out,
+        Err(p) => {
+            l.violation(&format!("panic:{}", vcore::short_loc(&p.loc)), &p.msg, || history_json(shape, acl, &[item], None, None));
+            vec![]
+        }
+    }
+}
+
+/// Execute `prefix` on `srv`, then `last`; the response to `last` must satisfy the oracle AND be
+/// byte-identical to the response `last` gets on a brand-new server (`last_alone`): what a request
+/// gets must not depend on the requests (of other sources) handled before it.
+fn run_history(w: &Worker, srv: &Srv, shape: usize, acl: usize, prefix: &[&Item], last: &Item, last_alone: &[Vec<u8>], l: &mut Local) {
+    l.eval();
+    for it in prefix {
+        if let Err(p) = exec_from(&w.rt, srv, it.0, &it.1, if it.2 { Protocol::Tcp } else { Protocol::Udp }) {
+            l.violation(&format!("panic:{}", vcore::short_loc(&p.loc)), &p.msg, || history_json(shape, acl, prefix, None, None));
+        }
+    }
+    let mut hist: Vec<&Item> = prefix.to_vec();
+    hist.push(last);
+    match exec_from(&w.rt, srv, last.0, &last.1, if last.2 { Protocol::Tcp } else { Protocol::Udp }) {
+        Ok(out) => {
+            if w.digests && last.1.len() >= 12 && last.1[2] & 0x80 == 0 {
+                let mut h = fnv64(&last.1) ^ (acl as u64).wrapping_mul(0x9e3779b97f4a7c15) ^ fnv64(last.0.to_string().as_bytes());
+                for it in prefix {
+                    h = h.rotate_left(7) ^ fnv64(&it.1) ^ fnv64(it.0.to_string().as_bytes());
+                }
+                l.nontrivial(h);
+            }
+            if let Some(f) = judge(&srv.cfg, last.0, &last.1, &out, l) {
+                l.violation(&f.key, &f.what, || history_json(shape, acl, &hist, Some(&out), Some(last_alone)));
+            }
+            if out != last_alone {
+                l.violation(
+                    "interleave:response-differs-from-request-alone",
+                    "the response to a request depends on the requests handled before it on the same server",
+                    || history_json(shape, acl, &hist, Some(&out), Some(last_alone)),
+                );
+            } else {
+                l.outcome("checked:interleaved-equals-alone");
+            }
+        }
+        Err(p) => l.violation(&format!("panic:{}", vcore::short_loc(&p.loc)), &p.msg, || history_json(shape, acl, &hist, None, None)),
+    }
+}
+
+// ------------------------------------------------------------------------------------------
+// FU: a really updatable zone (SqliteZoneHandler, allow_update, TSIG key) behind the front door
+
+const FU_KEY1: &[u8] = b"0123456789abcdef0123456789abcdef";
+const FU_KEY2: &[u8] = b"fedcba9876543210fedcba9876543210";
+
+fn fu_signer(name: &str, key: &[u8]) -> TSigner {
+    TSigner::new(key.to_vec(), TsigAlgorithm::HmacSha256, Name::from_str(name).unwrap(), 300).unwrap()
+}
+
+/// Catalog {z. = SqliteZoneHandler(allow_update, AXFR for signed requests, key k1.), a.z. =
+/// in-memory}. The updatable zone is built afresh for every case (it is modified).
+fn build_fu_srv(w: &mut Worker, acl: usize) -> Srv {
+    let ac = &acls()[acl];
+    // (the wrapped in-memory zone allows transfers: the SqliteZoneHandler's own policy decides)
+    let spec_z = Z { origin: "z.", axfr: true, secondary: false, chain: 0 };
+    let spec_az = z("a.z.");
+    let mut h = SqliteZoneHandler::<TokioRuntimeProvider>::new(build_zone(&spec_z, &w.world.owners), AxfrPolicy::AllowSigned, true, false);
+    h.set_tsig_signers(vec![fu_signer("k1.", FU_KEY1)]);
+    let az = w.zones.entry((spec_az.origin, false, false)).or_insert_with(|| Arc::new(build_zone(&spec_az, &w.world.owners))).clone();
+    let mut catalog = Catalog::new();
+    catalog.upsert(LowerName::new(&Name::from_str("z.").unwrap()), vec![Arc::new(h)]);
+    catalog.upsert(LowerName::new(&Name::from_str("a.z.").unwrap()), vec![az]);
+    let server = Server::with_access(
+        catalog,
+        ac.deny.iter().map(|s| s.parse::<ipnet::IpNet>().unwrap()),
+        ac.allow.iter().map(|s| s.parse::<ipnet::IpNet>().unwrap()),
+    );
+    let cfg = fd::Config {
+        zones: vec![labels_of("z."), labels_of("a.z.")],
+        deny: ac.deny.iter().map(|s| fd::Net::parse(s)).collect(),
+        allow: ac.allow.iter().map(|s| fd::Net::parse(s)).collect(),
+    };
+    Srv { server, cfg, src: ac.src.parse().unwrap(), probe_base: vec![] }
+}
+
+const FU_KINDS: [&str; 12] = [
+    "UPDATE z.: add n.z. TXT zone=z.",
+    "UPDATE z.: delete RRset x.z. TXT",
+    "UPDATE z.: prerequisite 'q.z. in use' (fails) + add",
+    "UPDATE z.: add a name outside the zone",
+    "UPDATE z.: zone section type A",
+    "UPDATE a.z. (in-memory zone, not updatable): add",
+    "UPDATE o. (no such zone): add",
+    "UPDATE x.z. (not an apex): add",
+    "UPDATE z.: no update records",
+    "UPDATE z.: prerequisite 'x.z. in use' (holds) + add + delete",
+    "QUERY x.z. TXT",
+    "QUERY z. AXFR",
+];
+const FU_SIGN: [&str; 5] = ["unsigned", "key k1 (configured)", "key k2 (unknown name)", "key name k1, wrong secret", "key k1, time 100000 s in the past"];
+
+/// The unsigned request bytes of an FU case, from the independent builder.
+fn fu_unsigned(kind: usize, id: u16, edns: usize) -> Vec<u8> {
+    let n = |s: &str| name_wire(s);
+    let marker = |zone: &str| {
+        let t = format!("zone={zone}");
+        let mut rd = vec![t.len() as u8];
+        rd.extend_from_slice(t.as_bytes());
+        rd
+    };
+    let e = edns_variant(edns);
+    // (opcode flags, zone/question, prerequisites, updates)
+    let (flags, q, pre, upd): (u16, Vec<u8>, Vec<Vec<u8>>, Vec<Vec<u8>>) = match kind {
+        0 => (0x2800, question(&n("z."), 6, 1), vec![], vec![rr(&n("n.z."), 16, 1, 60, &marker("z."))]),
+        1 => (0x2800, question(&n("z."), 6, 1), vec![], vec![rr(&n("x.z."), 16, 255, 0, &[])]),
+        2 => (0x2800, question(&n("z."), 6, 1), vec![rr(&n("q.z."), 255, 255, 0, &[])], vec![rr(&n("n.z."), 16, 1, 60, &marker("z."))]),
+        3 => (0x2800, question(&n("z."), 6, 1), vec![], vec![rr(&n("n.o."), 16, 1, 60, &marker("z."))]),
+        4 => (0x2800, question(&n("z."), 1, 1), vec![], vec![rr(&n("n.z."), 16, 1, 60, &marker("z."))]),
+        5 => (0x2800, question(&n("a.z."), 6, 1), vec![], vec![rr(&n("n.a.z."), 16, 1, 60, &marker("a.z."))]),
+        6 => (0x2800, question(&n("o."), 6, 1), vec![], vec![rr(&n("n.o."), 16, 1, 60, &marker("o."))]),
+        7 => (0x2800, question(&n("x.z."), 6, 1), vec![], vec![rr(&n("n.x.z."), 16, 1, 60, &marker("z."))]),
+        8 => (0x2800, question(&n("z."), 6, 1), vec![], vec![]),
+        9 => (
+            0x2800,
+            question(&n("z."), 6, 1),
+            vec![rr(&n("x.z."), 255, 255, 0, &[])],
+            vec![rr(&n("n.z."), 16, 1, 60, &marker("z.")), rr(&n("b.z."), 16, 255, 0, &[])],
+        ),
+        10 => (0x0100, question(&n("x.z."), 16, 1), vec![], vec![]),
+        _ => (0x0000, question(&n("z."), 252, 1), vec![], vec![]),
+    };
+    let mut m = hdr(id, flags, [1, pre.len() as u16, upd.len() as u16, e.ar_n]);
+    m.extend(q);
+    for r in pre.iter().chain(upd.iter()) {
+        m.extend(r);
+    }
+    m.extend(e.ar);
+    m
+}
+
+/// Sign with hickory's client-side signer (the MAC needs the wall clock the server reads).
+fn fu_sign(unsigned: &[u8], sign: usize) -> Vec<u8> {
+    if sign == 0 {
+        return unsigned.to_vec();
+    }
+    let now = std::time::SystemTime::now().duration_since(std::time::UNIX_EPOCH).unwrap().as_secs();
+    let (signer, time) = match sign {
+        1 => (fu_signer("k1.", FU_KEY1), now),
+        2 => (fu_signer("k2.", FU_KEY2), now),
+        3 => (fu_signer("k1.", FU_KEY2), now),
+        _ => (fu_signer("k1.", FU_KEY1), now - 100_000),
+    };
+    let mut m = Message::from_vec(unsigned).expect("FU request decodes");
+    m.finalize(&signer, time).expect("client-side signing");
+    m.to_vec().expect("encode signed request")
+}
+
+#[derive(Clone, Copy, Debug)]
+struct FuCase {
+    kind: usize,
+    sign: usize,
+    id: u16,
+    edns: usize,
+    acl: usize,
+    tcp: bool,
+}
+
+fn fu_json(c: &FuCase, req: Option<&[u8]>, out: Option<&[Vec<u8>]>) -> Value {
+    json!({
+        "family": "FU",
+        "fu": {"kind": c.kind, "sign": c.sign, "id": c.id, "edns": c.edns},
+        "kind_what": FU_KINDS[c.kind], "sign_what": FU_SIGN[c.sign], "edns_what": EDNS_NAMES[c.edns],
+        "acl": c.acl, "acl_what": acls()[c.acl].what, "src": acls()[c.acl].src,
+        "proto": if c.tcp { "tcp" } else { "udp" },
+        "request_as_sent (the MAC depends on the wall clock)": req.map(hex::enc),
+        "responses": out.map(|o| o.iter().map(|r| hex::enc(r)).collect::<Vec<_>>()),
+    })
+}
+
+fn run_fu(w: &mut Worker, c: &FuCase, l: &mut Local) {
+    l.eval();
+    let srv = build_fu_srv(w, c.acl);
+    let req = fu_sign(&fu_unsigned(c.kind, c.id, c.edns), c.sign);
+    let proto = if c.tcp { Protocol::Tcp } else { Protocol::Udp };
+    l.nontrivial(fnv64(format!("{c:?}").as_bytes()));
+    let mut accepted = false;
+    match exec(&w.rt, &srv, &req, proto) {
+        Ok(out) => {
+            if let Some(f) = judge(&srv.cfg, srv.src, &req, &out, l) {
+                l.violation(&f.key, &f.what, || fu_json(c, Some(&req), Some(&out)));
+            }
+            if let Some(r) = out.first() {
+                if r.len() >= 12 {
+                    let v = view_response(r);
+                    let signed = v.records.last().map(|x| x.rtype == 250).unwrap_or(false);
+                    if c.kind < 10 {
+                        accepted = v.rcode == fd::NOERROR;
+                        l.outcome(&format!("fu:update:{}:{}{}", FU_SIGN[c.sign], fd::rcode_name(v.rcode), if signed { ":tsig-in-response" } else { "" }));
+                    } else {
+                        l.outcome(&format!("fu:query:{}:{}{}", FU_SIGN[c.sign], fd::rcode_name(v.rcode), if signed { ":tsig-in-response" } else { "" }));
+                    }
+                }
+            }
+        }
+        Err(p) => l.violation(&format!("panic:{}", vcore::short_loc(&p.loc)), &format!("handler panicked: {}", p.msg), || fu_json(c, Some(&req), None)),
+    }
+    // afterwards, on the same server: the name the update adds, and the usual probe, both judged
+    // by the ordinary oracle (right zone, one response, ...)
+    let follow = build_request(0x7778, 0x0100, &name_wire("n.z."), 16, 1, 0);
+    for (what, q) in [("follow-up n.z. TXT", &follow), ("probe", &w.probe)] {
+        match exec(&w.rt, &srv, q, Protocol::Udp) {
+            Ok(out) => {
+                if let Some(f) = judge(&srv.cfg, srv.src, q, &out, l) {
+                    l.violation(&format!("after-update:{}", f.key), &format!("{what}: {}", f.what), || {
+                        let mut j = fu_json(c, Some(&req), None);
+                        j["follow_up_request"] = json!(hex::enc(q));
+                        j["follow_up_responses"] = json!(out.iter().map(|r| hex::enc(r)).collect::<Vec<_>>());
+                        j
+                    });
+                }
+                if what != "probe" && accepted && (c.kind == 0 || c.kind == 9) {
+                    let served = out.first().map(|r| r.len() >= 12 && u16::from_be_bytes([r[6], r[7]]) >= 1).unwrap_or(false);
+                    l.outcome(if served { "fu:accepted-update-is-served" } else { "obs:accepted-update-not-served" });
+                }
+            }
+            Err(p) => l.violation(&format!("after-update:panic:{}", vcore::short_loc(&p.loc)), &p.msg, || fu_json(c, Some(&req), None)),
+        }
+    }
+}
+
 fn run_one(w: &mut Worker, family: &str, pl: Place, req: &[u8], l: &mut Local) {
     let slot = pl.shape * acls().len() + pl.acl;
     let proto = if pl.tcp { Protocol::Tcp } else { Protocol::Udp };
@@ -1171,6 +1528,35 @@ fn main() {
 
     if let Some((_key, case)) = ctx.replay_case() {
         let mut w = Worker::new(&world);
+        if case["fu"].is_object() {
+            let c = FuCase {
+                kind: case["fu"]["kind"].as_u64().unwrap() as usize,
+                sign: case["fu"]["sign"].as_u64().unwrap() as usize,
+                id: case["fu"]["id"].as_u64().unwrap() as u16,
+                edns: case["fu"]["edns"].as_u64().unwrap() as usize,
+                acl: case["acl"].as_u64().unwrap() as usize,
+                tcp: case["proto"].as_str() == Some("tcp"),
+            };
+            ctx.with_local(|l| run_fu(&mut w, &c, l));
+            ctx.finish(false);
+        }
+        if let Some(h) = case["history"].as_array() {
+            let shape = case["shape"].as_u64().unwrap() as usize;
+            let acl = case["acl"].as_u64().unwrap() as usize;
+            let items: Vec<Item> = h
+                .iter()
+                .map(|x| (x["src"].as_str().unwrap().parse().unwrap(), hex::dec(x["request"].as_str().unwrap()).unwrap(), x["proto"].as_str() == Some("tcp")))
+                .collect();
+            ctx.with_local(|l| {
+                let last = items.last().unwrap().clone();
+                let base = alone(&mut w, shape, acl, &last, l);
+                let srv = build_srv(&world, &mut w.zones, shape, acl);
+                let prefix: Vec<&Item> = items[..items.len() - 1].iter().collect();
+                run_history(&w, &srv, shape, acl, &prefix, &last, &base, l);
+                eprintln!("replay: alone {:?}", base.iter().map(|r| hex::enc(r)).collect::<Vec<_>>());
+            });
+            ctx.finish(false);
+        }
         let pl = Place {
             shape: case["shape"].as_u64().unwrap() as usize,
             acl: case["acl"].as_u64().unwrap() as usize,
@@ -1185,7 +1571,7 @@ fn main() {
             eprintln!(
                 "replay: respond={} {} id={:#06x} opcode={} parse={:?}({}) gates={:?} tolerated={:?} rcodes={} zone={:?} plain={}",
                 e.respond, e.why_silent, e.id, e.opcode, e.parse, e.parse_reason, e.gates, e.tolerated, e.rcodes.describe(),
-                e.zone.map(|z| SHAPES[pl.shape].zones[z]), e.plain
+                e.zone.map(|z| SHAPES[pl.shape].zones[z].origin), e.plain
             );
             match exec(&w.rt, &srv, &req, if pl.tcp { Protocol::Tcp } else { Protocol::Udp }) {
                 Ok(out) => {
@@ -1209,7 +1595,7 @@ fn main() {
          each followed by a fixed probe query on the SAME server object. Configurations: 10 catalog shapes (single, nested 2/3, \
          siblings, root, root+z, empty, chained [skip-all, in-memory], root+a.z, z+a.a.z; every zone carries a TXT marker \
          naming itself at every queried owner it encloses) x 14 access-list/source configurations (v4, v4-mapped v6, v6) x \
-         UDP/TCP. Families: (FA) access PRODUCT: 6 sources {v4, v4-mapped, ::1, v4-compatible ::a.b.c.d, global v6, link-local} x deny list x allow list, each list EVERY subset of <= 2 (thorough <= 3) of a 10-net alphabet relative to the source (own host net, covering nets, wrong-family readings, catch-alls, unrelated nets of both families) x UDP/TCP x 2 queries, judged only where the three readings of the documented list semantics agree; (F0b) all configurations x ALL names of 1..3 labels (+ all l1.l2.a.z.) over the label alphabet {*,a,x,z} (thorough: + {A, '.', NUL, **}) x {TXT,A,SOA} x EDNS {none,v0}; (F0) all configurations x 34 query names (apexes, names under each zone, outside every zone, root, \
+         UDP/TCP. Families: (FU) a really updatable zone (SqliteZoneHandler, allow_update, TSIG key, AXFR for signed requests) next to an in-memory zone: 10 UPDATE shapes (applied, prerequisite fails/holds, out of zone, bad zone type, zone not updatable / unknown / not an apex, empty) + TXT and AXFR queries x {unsigned, configured key, unknown key, wrong secret, stale time} x ids x EDNS {none,v0,v1} x allowed/denied source x UDP/TCP, each followed by a query for the added name and the probe; (FI) requests of 7 SOURCES x 12 request kinds INTERLEAVED on one server object under 7 list configurations x 2 shapes: every pair (thorough: every triple) history, the last response must equal the response to the same request on a brand-new server; (FS) 5 shapes with one deviating dimension (zone transfers allowed, origins configured in upper/mixed case, secondary zones, chains [skip,skip,zone] / [zone,skip], NSID configured) x names x qtypes incl. AXFR/IXFR/ANY x EDNS incl. NSID; (FE) EDNS option bodies: every short OPT RDATA string and every option code x every short data string, lengths exact/short/long, EDNS version 0 and 1; (FL) large requests (65,000-octet RDATA, 4000 records per section, 15,000 options, 65,535-octet messages); (FA) access PRODUCT: 6 sources {v4, v4-mapped, ::1, v4-compatible ::a.b.c.d, global v6, link-local} x deny list x allow list, each list EVERY subset of <= 2 (thorough <= 3) of a 10-net alphabet relative to the source (own host net, covering nets, wrong-family readings, catch-alls, unrelated nets of both families) x UDP/TCP x 2 queries, judged only where the three readings of the documented list semantics agree; (F0b) all configurations x ALL names of 1..3 labels (+ all l1.l2.a.z.) over the label alphabet {*,a,x,z} (thorough: + {A, '.', NUL, **}) x {TXT,A,SOA} x EDNS {none,v0}; (F0) all configurations x 34 query names (apexes, names under each zone, outside every zone, root, \
          label-boundary near-misses, upper/mixed case, 255- and 256-octet names, compression pointers into the header) x 6 \
          plain qtypes x EDNS {none,v0,DO} x flags x ids; (F1) all configurations x names x qtypes x EDNS {none,v0,v1,v255,..} x \
          EVERY opcode 0..15; (F2) shapes x access classes x UDP/TCP x names x 9 qtypes x 4 qclasses x 16 EDNS variants (payload \
@@ -1235,7 +1621,7 @@ fn main() {
     ctx.assume("requests whose parse status depends on the reading of the RFC (trailing bytes, unvalidated RDATA, pointer in the question, QDCOUNT != 1, TSIG present) may get FORMERR or the normal answer");
 
     let nq = world.qn.len() as u64;
-    let nshape = SHAPES.len() as u64;
+    let nshape = N_BASE_SHAPES as u64;
     let nacl = N_BASE_ACLS as u64;
     let seed = ctx.seed;
 
@@ -1304,6 +1690,299 @@ fn main() {
         );
     }
 
+    // ---- FU: updates and signed requests against a really updatable zone ----------------------
+    {
+        let ids: [u16; 2] = [0x0001, 0xffff];
+        let edns: [usize; 3] = [0, 1, 2];
+        let acls_fu: [usize; 3] = [0, 1, 4];
+        let od = Odometer::new(&[FU_SIGN.len() as u64, FU_KINDS.len() as u64, 2, 3, 3, 2]);
+        let n = od.space();
+        ctx.set("FU_updatable_zone_cases", json!(n));
+        ctx.set("FU_kinds", json!(FU_KINDS));
+        ctx.set("FU_signing", json!(FU_SIGN));
+        ctx.par_run_init(
+            n,
+            8,
+            |_| Worker::new(&world),
+            |i, l, w| {
+                let d = od.get(rotate(i, n, seed));
+                let c = FuCase {
+                    sign: d[0] as usize,
+                    kind: d[1] as usize,
+                    id: ids[d[2] as usize],
+                    edns: edns[d[3] as usize],
+                    acl: acls_fu[d[4] as usize],
+                    tcp: d[5] == 1,
+                };
+                run_fu(w, &c, l);
+                if i % 211 == 0 {
+                    l.sample(fu_json(&c, None, None));
+                }
+            },
+        );
+        if ctx.outcome_count("fu:accepted-update-is-served") == 0 {
+            ctx.machinery_failure("vacuous run: no update was accepted and served by the updatable zone");
+        }
+    }
+
+    // ---- FE: EDNS option bodies at every length boundary x EDNS version ------------------------
+    // (a) OPT RDATA = EVERY string of length <= 3 (thorough 4) over S + {08, 0a};
+    // (b) OPT RDATA = one option: every assigned option code (+ unassigned, local-use, 65535) x
+    //     EVERY data string of length <= 4 (thorough 6) over {00,01,02,08,21,ff} (address families,
+    //     prefix lengths at and beyond the address width);
+    // each with RDLENGTH / OPTION-LENGTH exact, one short and one long, and EDNS version 0 and 1.
+    {
+        let mut alpha = S.to_vec();
+        alpha.extend([0x08, 0x0a]);
+        let data_alpha: [u8; 6] = [0x00, 0x01, 0x02, 0x08, 0x21, 0xff];
+        let codes: [u16; 18] = [0, 1, 2, 3, 4, 5, 6, 7, 8, 9, 10, 11, 12, 13, 14, 15, 65001, 65535];
+        let places = [Place { shape: 1, acl: 0, tcp: false }, Place { shape: 14, acl: 0, tcp: true }];
+        let opt_msg = |version: u8, rdlen: u16, rdata: &[u8]| {
+            let mut m = hdr(0x0e0e, 0x0100, [1, 0, 0, 1]);
+            m.extend(question(&name_wire("x.a.z."), 16, 1));
+            m.extend([0, 0, 41, 0x04, 0xd0, 0, version, 0, 0]);
+            m.extend(rdlen.to_be_bytes());
+            m.extend_from_slice(rdata);
+            m
+        };
+        let mut total = 0u64;
+        // (a)
+        for len in 0..=(if thorough { 4u32 } else { 3 }) {
+            let n = vcore::enumerate::pow(alpha.len() as u64, len);
+            ctx.par_run_init(
+                n,
+                256,
+                |_| (f6_worker(&world, !thorough), Vec::<u8>::new()),
+                |i, l, (w, buf)| {
+                    vcore::enumerate::string_at(&alpha, len as usize, i, buf);
+                    for version in [0u8, 1] {
+                        for delta in [0i32, -1, 1] {
+                            let rdlen = buf.len() as i32 + delta;
+                            if rdlen < 0 {
+                                continue;
+                            }
+                            let m = opt_msg(version, rdlen as u16, buf);
+                            for pl in &places {
+                                run_one(w, "FE-a", *pl, &m, l);
+                            }
+                        }
+                    }
+                },
+            );
+            total += n * (if len == 0 { 2 } else { 3 }) * 2 * places.len() as u64;
+        }
+        // (b)
+        for len in 0..=(if thorough { 6u32 } else { 4 }) {
+            let n = vcore::enumerate::pow(data_alpha.len() as u64, len);
+            ctx.par_run_init(
+                n,
+                64,
+                |_| (f6_worker(&world, !thorough), Vec::<u8>::new()),
+                |i, l, (w, buf)| {
+                    vcore::enumerate::string_at(&data_alpha, len as usize, i, buf);
+                    for code in codes {
+                        for version in [0u8, 1] {
+                            for delta in [0i32, -1, 1] {
+                                let optlen = buf.len() as i32 + delta;
+                                if optlen < 0 {
+                                    continue;
+                                }
+                                let mut rd = code.to_be_bytes().to_vec();
+                                rd.extend((optlen as u16).to_be_bytes());
+                                rd.extend_from_slice(buf);
+                                let m = opt_msg(version, rd.len() as u16, &rd);
+                                for pl in &places {
+                                    run_one(w, "FE-b", *pl, &m, l);
+                                }
+                            }
+                        }
+                    }
+                },
+            );
+            total += n * (if len == 0 { 2 } else { 3 }) * 2 * codes.len() as u64 * places.len() as u64;
+        }
+        ctx.set("FE_edns_option_body_cases", json!(total));
+    }
+
+    // ---- FL: large requests (integer-width boundaries of lengths and counts) -------------------
+    {
+        let q = question(&name_wire("x.a.z."), 16, 1);
+        let mut reqs: Vec<(&'static str, Vec<u8>)> = vec![];
+        let with = |counts: [u16; 4], body: &[u8]| {
+            let mut m = hdr(0x0f0f, 0x0100, counts);
+            m.extend(&q);
+            m.extend_from_slice(body);
+            m
+        };
+        // one TXT additional whose RDATA is 65,000 octets of 255-octet character-strings
+        {
+            let mut rd = vec![];
+            while rd.len() + 256 <= 65_000 {
+                rd.push(255);
+                rd.extend(std::iter::repeat(b't').take(255));
+            }
+            let rest = 65_000 - rd.len() - 1;
+            rd.push(rest as u8);
+            rd.extend(std::iter::repeat(b't').take(rest));
+            reqs.push(("TXT additional with 65000 octets of RDATA", with([1, 0, 0, 1], &rr(&[0xc0, 0x0c], 16, 1, 0, &rd))));
+        }
+        // 4000 A records in the answer / authority / additional section
+        let a4000: Vec<u8> = (0..4000u32).flat_map(|i| rr(&[0xc0, 0x0c], 1, 1, 0, &[10, 0, (i >> 8) as u8, i as u8])).collect();
+        reqs.push(("4000 A records in the answer section", with([1, 4000, 0, 0], &a4000)));
+        reqs.push(("4000 A records in the authority section", with([1, 0, 4000, 0], &a4000)));
+        reqs.push(("4000 A records in the additional section", with([1, 0, 0, 4000], &a4000)));
+        // the same with an OPT in front / behind
+        {
+            let mut b = opt_rr(1232, 0, 0, false, &[]);
+            b.extend(&a4000);
+            reqs.push(("OPT + 4000 A records in the additional section", with([1, 0, 0, 4001], &b)));
+            let mut b = a4000.clone();
+            b.extend(opt_rr(1232, 0, 1, false, &[]));
+            reqs.push(("4000 A records + OPT v1 in the additional section", with([1, 0, 0, 4001], &b)));
+        }
+        // OPT with 60,000 octets of options (15,000 empty local-use options)
+        {
+            let opts: Vec<u8> = (0..15_000).flat_map(|_| [0xff, 0x01, 0, 0]).collect();
+            reqs.push(("OPT with 15000 options", with([1, 0, 0, 1], &opt_rr(1232, 0, 0, false, &opts))));
+        }
+        // exactly 65,535 octets: question + trailing zero octets; 65,535 octets of 0xff
+        {
+            let mut m = with([1, 0, 0, 0], &[]);
+            m.resize(65_535, 0);
+            reqs.push(("65535 octets, zero padding behind the question", m));
+            reqs.push(("65535 octets of ff", vec![0xff; 65_535]));
+            let mut m = hdr(0x0f0f, 0x0100, [1, 0, 0, 0]);
+            m.resize(65_535, 0x3f);
+            reqs.push(("65535 octets: header + 3f labels", m));
+        }
+        // UPDATE with 4000 update records
+        {
+            let mut m = hdr(0x0f0f, 0x2800, [1, 0, 4000, 0]);
+            m.extend(question(&name_wire("z."), 6, 1));
+            m.extend(&a4000);
+            reqs.push(("UPDATE with 4000 update records", m));
+        }
+        let places = place_list(&[1, 5], &[0, 1], &[false, true]);
+        let n = (reqs.len() * places.len()) as u64;
+        ctx.set("FL_large_request_cases", json!(n));
+        ctx.set("FL_requests", json!(reqs.iter().map(|r| r.0).collect::<Vec<_>>()));
+        ctx.par_run_init(
+            n,
+            1,
+            |_| Worker::new(&world),
+            |i, l, w| {
+                let u = rotate(i, n, seed) as usize;
+                let (what, req) = &reqs[u / places.len()];
+                let pl = places[u % places.len()];
+                run_one(w, "FL", pl, req, l);
+                if u % places.len() == 0 {
+                    l.sample(json!({"family": "FL", "request": what, "octets": req.len()}));
+                }
+            },
+        );
+    }
+
+    // ---- FI: requests from several sources interleaved on one server object ------------------
+    {
+        let t = acl_table();
+        let reqs = fi_requests();
+        let mut items: Vec<Item> = vec![];
+        for src in FI_SOURCES {
+            for (_, r) in &reqs {
+                items.push((src.parse().unwrap(), r.clone(), false));
+            }
+        }
+        // thorough: the last request of a history also over TCP
+        let fi_shapes: [usize; 2] = [1, 5];
+        let ni = items.len() as u64;
+        let nconf = (fi_shapes.len() * FI_LISTS.len()) as u64;
+        ctx.set("FI_items(source x request)", json!(ni));
+        ctx.set("FI_requests", json!(reqs.iter().map(|r| r.0).collect::<Vec<_>>()));
+        ctx.set("FI_sources", json!(FI_SOURCES));
+        // pairs: unit = (configuration, A); every B after A on one server object
+        let n = nconf * ni;
+        ctx.set("FI_pair_histories", json!(n * ni));
+        ctx.par_run_init(
+            n,
+            1,
+            |_| (Worker::new(&world), std::collections::HashMap::<(usize, usize, usize), Vec<Vec<u8>>>::new()),
+            |i, l, (w, base)| {
+                let u = rotate(i, n, seed);
+                let conf = (u / ni) as usize;
+                let a = (u % ni) as usize;
+                let shape = fi_shapes[conf % fi_shapes.len()];
+                let acl = t.fi_start + conf / fi_shapes.len();
+                for b in 0..items.len() {
+                    if !base.contains_key(&(shape, acl, b)) {
+                        let r = alone(w, shape, acl, &items[b], l);
+                        base.insert((shape, acl, b), r);
+                    }
+                    // a brand-new server object per history, so that a witness is exactly its history
+                    let srv = build_srv(w.world, &mut w.zones, shape, acl);
+                    run_history(w, &srv, shape, acl, &[&items[a]], &items[b], &base[&(shape, acl, b)], l);
+                }
+                if i % 97 == 0 {
+                    l.sample(history_json(shape, acl, &[&items[a], &items[0]], None, None));
+                }
+            },
+        );
+        if thorough {
+            // triples: unit = (configuration, A1, A2); every C after A1; A2
+            let n = nconf * ni * ni;
+            ctx.set("FI_triple_histories", json!(n * ni));
+            ctx.par_run_init(
+                n,
+                8,
+                |_| (f6_worker(&world, false), std::collections::HashMap::<(usize, usize, usize), Vec<Vec<u8>>>::new()),
+                |i, l, (w, base)| {
+                    let u = rotate(i, n, seed);
+                    let conf = (u / (ni * ni)) as usize;
+                    let a1 = ((u / ni) % ni) as usize;
+                    let a2 = (u % ni) as usize;
+                    let shape = fi_shapes[conf % fi_shapes.len()];
+                    let acl = t.fi_start + conf / fi_shapes.len();
+                    for c in 0..items.len() {
+                        if !base.contains_key(&(shape, acl, c)) {
+                            let r = alone(w, shape, acl, &items[c], l);
+                            base.insert((shape, acl, c), r);
+                        }
+                        let srv = build_srv(w.world, &mut w.zones, shape, acl);
+                        run_history(w, &srv, shape, acl, &[&items[a1], &items[a2]], &items[c], &base[&(shape, acl, c)], l);
+                    }
+                },
+            );
+        }
+    }
+
+    // ---- FS: the catalog shapes with one deviating configuration dimension -------------------
+    // (zone transfers allowed, origins configured in upper/mixed case, secondary zones, longer
+    // handler chains with skipping handlers before and after the zone, NSID configured)
+    {
+        let mut names: Vec<Vec<u8>> = world.qn.iter().map(|q| q.wire.clone()).collect();
+        names.extend(sys_names(&LABELS_QUICK));
+        let qtypes: [u16; 7] = [16, 1, 6, 2, 252, 251, 255];
+        let edns: [usize; 3] = [0, 1, 9];
+        let acls_fs: [usize; 3] = [0, 1, 4];
+        let nfs = (SHAPES.len() - N_BASE_SHAPES) as u64;
+        let od = Odometer::new(&[3, 7, names.len() as u64, 2, 3, nfs]);
+        let n = od.space();
+        ctx.set("FS_deviating_shape_cases", json!(n));
+        ctx.par_run_init(
+            n,
+            512,
+            |_| Worker::new(&world),
+            |i, l, w| {
+                let d = od.get(rotate(i, n, seed));
+                let pl = Place { shape: N_BASE_SHAPES + d[5] as usize, acl: acls_fs[d[4] as usize], tcp: d[3] == 1 };
+                let req = build_request(0x0f50, 0x0100, &names[d[2] as usize], qtypes[d[1] as usize], 1, edns[d[0] as usize]);
+                run_one(w, "FS", pl, &req, l);
+                if i % 50_021 == 0 {
+                    l.sample(case_json("FS", pl, &req, None));
+                }
+            },
+        );
+    }
+
     // ---- F0b: zone dispatch over the systematic label-alphabet names ------------------------
     {
         let names = if thorough { sys_names(&LABELS_THOROUGH) } else { sys_names(&LABELS_QUICK) };
@@ -1332,7 +2011,7 @@ fn main() {
     // ---- F1: dispatch product, every opcode ------------------------------------------------
     {
         let qtypes: Vec<u16> = if thorough { vec![16, 1, 6, 2, 28, 255, 252, 41, 65535] } else { vec![16, 1, 6] };
-        let edns: Vec<usize> = if thorough { vec![0, 1, 2, 3, 7, 10, 11, 12] } else { vec![0, 1, 2, 3] };
+        let edns: Vec<usize> = if thorough { vec![0, 1, 2, 3, 7, 10, 11, 12] } else { vec![0, 2, 3] };
         let od = Odometer::new(&[16, edns.len() as u64, qtypes.len() as u64, nq, 2, nacl, nshape]);
         let n = od.space();
         ctx.set("F1_dispatch_cases", json!(n));
@@ -1393,7 +2072,7 @@ fn main() {
         let names: Vec<usize> = if thorough {
             (0..world.qn.len()).collect()
         } else {
-            ["a.z.", "x.o.", "pointer c002 (into the flags)", "z + pointer c004"]
+            ["a.z.", "x.o.", "pointer c002 (into the flags)"]
                 .iter()
                 .map(|w| world.qn.iter().position(|q| q.what == *w).unwrap())
                 .collect()
@@ -1556,11 +2235,14 @@ fn main() {
             ctx.set("F6_len7_bodies_starting_with_01", json!(n));
             ctx.set(
                 "distinct_nontrivial_note",
-                json!("thorough tier: the F6 requests (all >= 12 bytes, QR=0, pairwise distinct by construction; count in F6_header_plus_body_cases) are NOT entered into the digest set, to stay below vcore's 40M-entry cap; distinct_nontrivial counts families F0-F5"),
+                json!("thorough tier: the F6 and FE requests and the FI triple histories (pairwise distinct by construction; counts in F6_header_plus_body_cases, FE_edns_option_body_cases, FI_triple_histories) are NOT entered into the digest set, to stay below vcore's 40M-entry cap; distinct_nontrivial counts the other families"),
             );
         }
-        for (_hi, (_, h)) in headers.iter().enumerate() {
+        for (hi, (_, h)) in headers.iter().enumerate() {
             for len in 0..=maxlen {
+                if !thorough && hi == 2 && len == maxlen {
+                    continue; // quick: the UPDATE header only up to length 4
+                }
                 let n = vcore::enumerate::pow(14, len);
                 total += n;
                 ctx.par_run_init(
@@ -1604,6 +2286,7 @@ fn main() {
         "checked:question-echo",
         "checked:zone",
         "checked:probe",
+        "checked:interleaved-equals-alone",
     ] {
         if ctx.outcome_count(class) == 0 {
             ctx.machinery_failure(&format!("vacuous run: outcome class {class} was never exercised"));
